@@ -4,7 +4,9 @@
 mod cases;
 mod catalogue;
 mod collect;
+mod fam_altform;
 mod fam_builtin;
+mod fam_sink;
 mod fam_decl;
 mod generated {
     pub mod decls;
@@ -99,6 +101,8 @@ fn main() {
         "ty" => fam_builtin::run_ty(&a),
         "raw" => fam_builtin::run_raw(&a),
         "varint" => fam_varint::run(&a),
+        "sink" => fam_sink::run(&a),
+        "altform" => fam_altform::run(&a),
         "decl" => fam_decl::run_decl(&a),
         "hist" => fam_decl::run_hist(&a),
         other => {
